@@ -254,13 +254,17 @@ def compare(impl, model):
       return f'{k}: code {jdump(impl.get(k))[:300]} / model {jdump(model.get(k))[:300]}'
   # the Lean reference interpreter and the Python one (written independently) must agree where both are defined
   ref = impl.get('pyref') or {}
-  if 'ref_out' in model and ref.get('exact') and 'crash' not in ref:
+  if 'ref_out' in model and model.get('ref_clean') and ref.get('exact') and 'crash' not in ref:
     if ref['out'] != model['ref_out']:
       return f"reference interpreters differ on out: py {jdump(ref['out'])[:300]} / lean {jdump(model['ref_out'])[:300]}"
     if (ref['err'] is None) != (model['ref_err'] is None):
       return f"reference interpreters differ on err: py {ref['err']} / lean {model['ref_err']}"
     if ref['logs'] != model['ref_logs']:
       return 'reference interpreters differ on sink logs'
+  # the two formulations of the Lean reference (operator-major / record-major) agree on clean runs
+  if 'ref_out' in model and model.get('ref_clean') and model['ref_err'] is None and model['ref2_err'] is None \
+      and model['ref_out'] != model['ref2_out']:
+    return 'the two formulations of the Lean reference differ'
   return None
 
 
@@ -303,6 +307,16 @@ def static_invalid(specs):
       return 'fn_batch_size without batch_size'
     if op in ('select', 'apply', 'assign') and sp.get('fn') is None and op != 'filter' and 'kw' in sp['in'] and sp['in']['kw']:
       return 'keyword input keys without a function'
+    if op != 'batch':
+      ins = sp['in']
+      in_keys = [ins['one']] if 'one' in ins else ins.get('many', [k for _, k in ins.get('kw', [])])
+      if any('skip' in k for k in in_keys):
+        return 'SKIP as an input key'
+      outs = sp.get('out') if op in ('select', 'apply') else sp.get('keys') if op == 'assign' else None
+      if op == 'select' and (outs is None or not _flat(outs)):
+        outs = {'many': in_keys}
+      if outs is not None and any('lit' in k for k in ([outs['one']] if 'one' in outs else outs['many'])):
+        return 'Literal as an output key'
     if op == 'sink' and not sp['is_sink']:
       return 'not a sink'
     if op == 'assign':
